@@ -19,7 +19,14 @@ C++ unwinding are modelled by their contract: a function called through
 `PlatformSpecificLongJmp` decrement the index.
 
 Regenerated from the source (`Gen.Runner`): the array length, `TestResult::isFailure`, the
-return expression of `CommandLineTestRunner::runAllTests`.
+verdict condition of `TestOutput::printTestsEnded`, the return expression of
+`CommandLineTestRunner::runAllTests`.
+
+Environment inputs: the successive readings of `GetPlatformSpecificTimeInMillis` (`Cfg.clock`);
+every read is an event (`Ev.clock`), so the call sites and their order are part of the
+correspondence.  Rethrow mode is modelled up to "the exception propagates out of
+`runAllTests`" (`Stop.propagated`, with everything printed until then, the setjmp depth and the
+current test at that moment).
 -/
 namespace Runner
 
@@ -36,7 +43,8 @@ inductive Stmt
   | failC (loc : Loc) (msg : String)      -- `FAIL_TEXT_C` / `CHECK_C(0)`: terminator without exceptions
   | throwStd                              -- `throw std::runtime_error(..)`
   | throwOther                            -- `throw 42`
-  | exitTest                              -- `TEST_EXIT`
+  | exitTest                              -- `TEST_EXIT` = exitTest(default terminator)
+  | exitTestC                             -- `exitTest(TestTerminatorWithoutExceptions())`
 deriving Repr, DecidableEq, Inhabited
 
 inductive Phase
@@ -79,11 +87,14 @@ structure Cfg where
   exceptions   : Bool             -- CPPUTEST_HAVE_EXCEPTIONS (build variant)
   rethrow      : Bool             -- UtestShell::rethrowExceptions_ (off with `-e`)
   verbose      : Bool             -- `-v`
+  veryVerbose  : Bool             -- `-vv`
+  color        : Bool             -- `-c`
   runIgnored   : Bool             -- `-ri`
   groupFilters : List Filter
   nameFilters  : List Filter
   stdExcMsg    : String           -- text of UnexpectedExceptionFailure(test, e)
   otherExcMsg  : String           -- text of UnexpectedExceptionFailure(test)
+  clock        : List Nat         -- environment: successive readings of GetPlatformSpecificTimeInMillis
 deriving Repr, DecidableEq, Inhabited
 
 /-! ## TestResult -/
@@ -129,7 +140,8 @@ inductive Ev
   | failure (r : FailRec)                              -- TestOutput::printFailure(r)
   | ended (depth : Int) (current : Option String) (failed : Bool)
       -- after runOneTest returned: jmp_buf_index, UtestShell::currentTest_, the shell's hasFailed_
-  | summary (r : Result)                               -- TestOutput::printTestsEnded(r)
+  | summary (r : Result) (time : Nat)                  -- TestOutput::printTestsEnded(r), total time `time`
+  | clock (v : Nat)                                    -- one reading of GetPlatformSpecificTimeInMillis
   | ret (v : Int)                                      -- value returned by runAllTests
 deriving Repr, DecidableEq, Inhabited
 
@@ -152,19 +164,25 @@ def failureToks (r : FailRec) : List String :=
 def noteText : String :=
   "\nNote: test run failed because no tests were run or ignored. Assuming something went wrong. This often happens because of linking errors or typos in test filter."
 
-/-- the head of the summary line -/
-def summaryHead (r : Result) : List String :=
-  if r.isFailure then
+/-- the verdict `printTestsEnded` prints (regenerated condition of that function) -/
+def Result.printsFailure (r : Result) : Bool :=
+  Gen.Runner.summaryIsFailure r.failureCount r.runCount r.ignoredCount
+
+/-- the head of the summary line (with the colour escape when `-c`) -/
+def summaryHead (color : Bool) (r : Result) : List String :=
+  if r.printsFailure then
+    (if color then ["\x1b[31;1m"] else []) ++
     (if r.failureCount > 0 then ["Errors (", toString r.failureCount, " failures, "]
      else ["Errors (", "ran nothing, "])
-  else ["OK ("]
+  else (if color then ["\x1b[32;1m"] else []) ++ ["OK ("]
 
-/-- `TestOutput::printTestsEnded` (no colour; the clock seam is pinned, so the time prints as 0) -/
-def summaryToks (r : Result) : List String :=
-  ["\n"] ++ summaryHead r ++
+/-- `TestOutput::printTestsEnded` -/
+def summaryToks (color : Bool) (r : Result) (time : Nat) : List String :=
+  ["\n"] ++ summaryHead color r ++
   [toString r.testCount, " tests, ", toString r.runCount, " ran, ", toString r.checkCount, " checks, ",
-   toString r.ignoredCount, " ignored, ", toString r.filteredOutCount, " filtered out, ", "0", " ms)"] ++
-  (if r.isFailure && r.failureCount == 0 then [noteText] else []) ++ ["\n\n"]
+   toString r.ignoredCount, " ignored, ", toString r.filteredOutCount, " filtered out, ", toString time, " ms)"] ++
+  (if color then ["\x1b[m"] else []) ++
+  (if r.printsFailure && r.failureCount == 0 then [noteText] else []) ++ ["\n\n"]
 
 /-! ## statements of one phase -/
 
@@ -223,15 +241,34 @@ def runStmts (cfg : Cfg) (t : Test) (ph : Phase) (d : Int) : Result → Bool →
   | res, hf, .throwOther :: rest =>
     if cfg.exceptions then ⟨res, hf, [], .exc .other⟩ else runStmts cfg t ph d res hf rest
   | res, hf, .exitTest :: _ => ⟨res, hf, [], normalTerminator cfg⟩
+  | res, hf, .exitTestC :: _ => ⟨res, hf, [], .longjmp⟩
 
 /-! ## the setjmp stack -/
 
 inductive Fault
   | jmpIndex (i : Int)      -- test_exit_jmp_buf[i] with i outside the array
   | wrongFrame              -- longjmp to a buffer that is not the innermost active frame's
-  | rethrown                -- rethrow mode: the exception leaves Utest::run (ends the process by design)
   | uncaught                -- exception in a build without exception support
 deriving Repr, DecidableEq, Inhabited
+
+/-- rethrow mode: an exception on its way out of `runAllTests` -/
+structure Propagated where
+  kind    : ExcKind
+  evs     : List Ev              -- everything observed until it left
+  depth   : Int                  -- jmp_buf_index at that moment (nobody decrements on the way out)
+  current : Option String        -- UtestShell::currentTest_ at that moment (not restored)
+deriving Repr, DecidableEq, Inhabited
+
+/-- why a run does not come back with a value -/
+inductive Stop
+  | fault (f : Fault)
+  | propagated (p : Propagated)
+deriving Repr, DecidableEq, Inhabited
+
+/-- the caller had already observed `before` -/
+def Stop.prepend (before : List Ev) : Stop → Stop
+  | .fault f => .fault f
+  | .propagated p => .propagated { p with evs := before ++ p.evs }
 
 /-- state threaded through one test -/
 structure TSt where
@@ -262,19 +299,19 @@ def TSt.dec (s : TSt) : TSt := { s with depth := s.depth - 1 }
 
 /-- the part of PlatformSpecificSetJmpImplementation after `function(data)` was entered.
     `d` is the index the buffer was saved at. -/
-def setJmpAfter (d : Int) (fr : Frame) : Except Fault JmpOut :=
+def setJmpAfter (d : Int) (fr : Frame) : Except Stop JmpOut :=
   match fr.exit with
   | .normal => .ok ⟨fr.st.dec, fr.evs, true, none⟩                      -- jmp_buf_index--; return 1
   | .longjmp =>                                                          -- LongJmp: jmp_buf_index--; longjmp(buf[index])
-    if !inBuf (fr.st.depth - 1) then .error (.jmpIndex (fr.st.depth - 1))
+    if !inBuf (fr.st.depth - 1) then .error (.fault (.jmpIndex (fr.st.depth - 1)))
     else if fr.st.depth - 1 = d then .ok ⟨fr.st.dec, fr.evs, false, none⟩   -- lands in this setjmp: return 0
-    else .error .wrongFrame
+    else .error (.fault .wrongFrame)
   | .exc k => .ok ⟨fr.st, fr.evs, false, some k⟩                        -- unwinds through; nobody decrements
 
 /-- `PlatformSpecificSetJmpImplementation(function, data)`:
     `if (0 == setjmp(buf[index])) { index++; function(data); index--; return 1; } return 0;` -/
-def setJmp (st : TSt) (fn : TSt → Except Fault Frame) : Except Fault JmpOut :=
-  if !inBuf st.depth then .error (.jmpIndex st.depth)
+def setJmp (st : TSt) (fn : TSt → Except Stop Frame) : Except Stop JmpOut :=
+  if !inBuf st.depth then .error (.fault (.jmpIndex st.depth))
   else
     match fn { st with depth := st.depth + 1 } with
     | .error f => .error f
@@ -291,7 +328,7 @@ def stmtsOf (t : Test) : Phase → List Stmt
   | .teardown => t.teardown
 
 /-- helperDoTestSetup / Body / Teardown: the user's code of one phase -/
-def phaseFn (cfg : Cfg) (t : Test) (ph : Phase) (st : TSt) : Except Fault Frame :=
+def phaseFn (cfg : Cfg) (t : Test) (ph : Phase) (st : TSt) : Except Stop Frame :=
   let o := runStmts cfg t ph st.depth st.res st.hasFailed (stmtsOf t ph)
   .ok ⟨{ st with res := o.res, hasFailed := o.hasFailed }, .enter ph st.depth :: o.evs, o.exit⟩
 
@@ -305,60 +342,85 @@ structure Acc where
   evs : List Ev
 deriving Repr, DecidableEq, Inhabited
 
-/-- the three `catch` clauses that follow both `try` blocks of `Utest::run` -/
-def catchClauses (cfg : Cfg) (t : Test) (st : TSt) (evs : List Ev) : ExcKind → Except Fault Acc
+/-- `printVeryVerbose(s)`: printed with `-vv` only -/
+def vv (cfg : Cfg) (s : String) : List Ev := if cfg.veryVerbose then [.tok s] else []
+
+/-- the same inside `Utest::run`, whose variant without exceptions has no such calls -/
+def vvU (cfg : Cfg) (s : String) : List Ev := if cfg.veryVerbose && cfg.exceptions then [.tok s] else []
+
+def vvBefore : Phase → String
+  | .setup => "\n-------- before setup: "
+  | .body => "\n----------  before body: "
+  | .teardown => "\n--------  before teardown: "
+
+def vvAfter : Phase → String
+  | .setup => "\n-------- after  setup: "
+  | .body => "\n----------  after body: "
+  | .teardown => "\n--------  after teardown: "
+
+/-- the three `catch` clauses that follow both `try` blocks of `Utest::run`; in rethrow mode a
+    std or foreign exception is recorded, the index restored, and the exception thrown on -/
+def catchClauses (cfg : Cfg) (t : Test) (st : TSt) (evs : List Ev) : ExcKind → Except Stop Acc
   | .failed => .ok ⟨restoreJumpBuffer st, evs⟩
   | .std =>
-    if cfg.rethrow then .error .rethrown
+    if cfg.rethrow then
+      .error (.propagated ⟨.std, evs ++ [.failure (mkRecAtTest cfg t cfg.stdExcMsg)],
+                           (restoreJumpBuffer (shellAddFailure st)).depth, st.current⟩)
     else .ok ⟨restoreJumpBuffer (shellAddFailure st), evs ++ [.failure (mkRecAtTest cfg t cfg.stdExcMsg)]⟩
   | .other =>
-    if cfg.rethrow then .error .rethrown
+    if cfg.rethrow then
+      .error (.propagated ⟨.other, evs ++ [.failure (mkRecAtTest cfg t cfg.otherExcMsg)],
+                           (restoreJumpBuffer (shellAddFailure st)).depth, st.current⟩)
     else .ok ⟨restoreJumpBuffer (shellAddFailure st), evs ++ [.failure (mkRecAtTest cfg t cfg.otherExcMsg)]⟩
 
-/-- what follows a SetJmp call inside a `try`: an escaping exception goes to the catch clauses -/
-def afterTry (cfg : Cfg) (t : Test) (j : JmpOut) (evsBefore : List Ev) : Except Fault Acc :=
+/-- what follows a SetJmp call inside a `try`: an escaping exception goes to the catch clauses
+    (skipping the "after" print), otherwise the "after" print follows -/
+def afterTry (cfg : Cfg) (t : Test) (j : JmpOut) (evsBefore evsAfter : List Ev) : Except Stop Acc :=
   match j.esc with
   | some k => catchClauses cfg t j.st (evsBefore ++ j.evs) k
-  | none => .ok ⟨j.st, evsBefore ++ j.evs⟩
+  | none => .ok ⟨j.st, evsBefore ++ j.evs ++ evsAfter⟩
 
-/-- `if (jumpResult) PlatformSpecificSetJmp(helperDoTestBody, this);` inside the first try block -/
-def bodyIfSetupReturned (cfg : Cfg) (t : Test) (j1 : JmpOut) : Except Fault Acc :=
-  match j1.esc with
-  | some k => catchClauses cfg t j1.st j1.evs k
-  | none =>
-    if j1.ret then
-      match setJmp j1.st (phaseFn cfg t .body) with
-      | .error f => .error f
-      | .ok j2 => afterTry cfg t j2 j1.evs
-    else .ok ⟨j1.st, j1.evs⟩
+/-- `if (jumpResult) { PlatformSpecificSetJmp(helperDoTestBody, this); }` inside the first try block -/
+def bodyIfSetupReturned (cfg : Cfg) (t : Test) (a1 : Acc) (ret : Bool) : Except Stop Acc :=
+  if ret then
+    match setJmp a1.st (phaseFn cfg t .body) with
+    | .error f => .error f
+    | .ok j2 => afterTry cfg t j2 (a1.evs ++ vvU cfg (vvBefore .body)) (vvU cfg (vvAfter .body))
+  else .ok a1
 
 /-- first `try` block with its catch clauses -/
-def tryBlock1 (cfg : Cfg) (t : Test) (st : TSt) : Except Fault Acc :=
+def tryBlock1 (cfg : Cfg) (t : Test) (st : TSt) : Except Stop Acc :=
   match setJmp st (phaseFn cfg t .setup) with
   | .error f => .error f
-  | .ok j1 => bodyIfSetupReturned cfg t j1
+  | .ok j1 =>
+    match afterTry cfg t j1 (vvU cfg (vvBefore .setup)) (vvU cfg (vvAfter .setup)) with
+    | .error f => .error f
+    | .ok a1 =>
+      match j1.esc with
+      | some _ => .ok a1                        -- the catch clause ended the try block
+      | none => bodyIfSetupReturned cfg t a1 j1.ret
 
 /-- second `try` block with its catch clauses -/
-def tryBlock2 (cfg : Cfg) (t : Test) (a : Acc) : Except Fault Acc :=
+def tryBlock2 (cfg : Cfg) (t : Test) (a : Acc) : Except Stop Acc :=
   match setJmp a.st (phaseFn cfg t .teardown) with
   | .error f => .error f
-  | .ok j => afterTry cfg t j a.evs
+  | .ok j => afterTry cfg t j (a.evs ++ vvU cfg (vvBefore .teardown)) (vvU cfg (vvAfter .teardown))
 
 /-- `Utest::run`, build with exceptions -/
-def utestRunExc (cfg : Cfg) (t : Test) (st : TSt) : Except Fault Acc :=
+def utestRunExc (cfg : Cfg) (t : Test) (st : TSt) : Except Stop Acc :=
   match tryBlock1 cfg t st with
   | .error f => .error f
   | .ok a => tryBlock2 cfg t a
 
 /-- an exception where no handler exists -/
-def noEsc (j : JmpOut) (evsBefore : List Ev) : Except Fault Acc :=
+def noEsc (j : JmpOut) (evsBefore : List Ev) : Except Stop Acc :=
   match j.esc with
-  | some _ => .error .uncaught
+  | some _ => .error (.fault .uncaught)
   | none => .ok ⟨j.st, evsBefore ++ j.evs⟩
 
-def bodyNoExc (cfg : Cfg) (t : Test) (j1 : JmpOut) : Except Fault Acc :=
+def bodyNoExc (cfg : Cfg) (t : Test) (j1 : JmpOut) : Except Stop Acc :=
   match j1.esc with
-  | some _ => .error .uncaught
+  | some _ => .error (.fault .uncaught)
   | none =>
     if j1.ret then
       match setJmp j1.st (phaseFn cfg t .body) with
@@ -366,14 +428,14 @@ def bodyNoExc (cfg : Cfg) (t : Test) (j1 : JmpOut) : Except Fault Acc :=
       | .ok j2 => noEsc j2 j1.evs
     else .ok ⟨j1.st, j1.evs⟩
 
-def teardownNoExc (cfg : Cfg) (t : Test) (a : Acc) : Except Fault Acc :=
+def teardownNoExc (cfg : Cfg) (t : Test) (a : Acc) : Except Stop Acc :=
   match setJmp a.st (phaseFn cfg t .teardown) with
   | .error f => .error f
   | .ok j => noEsc j a.evs
 
 /-- `Utest::run`, build without exceptions:
     `if (SetJmp(setup)) SetJmp(body); SetJmp(teardown);` -/
-def utestRunNoExc (cfg : Cfg) (t : Test) (st : TSt) : Except Fault Acc :=
+def utestRunNoExc (cfg : Cfg) (t : Test) (st : TSt) : Except Stop Acc :=
   match setJmp st (phaseFn cfg t .setup) with
   | .error f => .error f
   | .ok j1 =>
@@ -381,7 +443,7 @@ def utestRunNoExc (cfg : Cfg) (t : Test) (st : TSt) : Except Fault Acc :=
     | .error f => .error f
     | .ok a => teardownNoExc cfg t a
 
-def utestRun (cfg : Cfg) (t : Test) (st : TSt) : Except Fault Acc :=
+def utestRun (cfg : Cfg) (t : Test) (st : TSt) : Except Stop Acc :=
   if cfg.exceptions then utestRunExc cfg t st else utestRunNoExc cfg t st
 
 /-! ## plugins -/
@@ -423,24 +485,34 @@ def runAllPost (cfg : Cfg) (t : Test) : List Plugin → TSt → Acc
 
 /-! ## UtestShell::runOneTest -/
 
-/-- after `testToRun->run()` returned: restore the saved context, destroyTest, post actions -/
+/-- after `testToRun->run()` returned: "after runTest", restore the saved context, destroyTest,
+    post actions -/
 def afterRun (cfg : Cfg) (plugins : List Plugin) (t : Test) (saved : Option String)
     (evsPre : List Ev) (a : Acc) : Frame :=
   let p := runAllPost cfg t plugins { a.st with current := saved }
-  ⟨p.st, evsPre ++ a.evs ++ p.evs, .normal⟩
+  ⟨p.st,
+   evsPre ++ a.evs ++ vv cfg "\n------ after runTest: " ++ vv cfg "\n---- before destroyTest: " ++
+     vv cfg "\n---- after destroyTest: " ++ vv cfg "\n-- before runAllPostTestAction: " ++ p.evs ++
+     vv cfg "\n-- after runAllPostTestAction: ",
+   .normal⟩
+
+/-- what `runOneTestInCurrentProcess` prints before `testToRun->run()` -/
+def beforeRun (cfg : Cfg) (preEvs : List Ev) : List Ev :=
+  vv cfg "\n-- before runAllPreTestAction: " ++ preEvs ++ vv cfg "\n-- after runAllPreTestAction: " ++
+  vv cfg "\n---- before createTest: " ++ vv cfg "\n---- after createTest: " ++ vv cfg "\n------ before runTest: "
 
 /-- `UtestShell::runOneTestInCurrentProcess` (called through helperDoRunOneTestInCurrentProcess).
-    With rethrow off `Utest::run` lets no exception out, so the `catch(...) { destroyTest; throw; }`
-    is not entered. -/
+    An exception that leaves `Utest::run` (rethrow mode) passes `catch(...) { destroyTest; throw; }`:
+    the saved context is not restored and the post actions do not run. -/
 def runOneTestInCurrentProcess (cfg : Cfg) (plugins : List Plugin) (t : Test) (st : TSt) :
-    Except Fault Frame :=
+    Except Stop Frame :=
   let pre := runAllPre cfg t plugins st
   match utestRun cfg t { pre.st with current := some t.name } with
-  | .error f => .error f
-  | .ok a => .ok (afterRun cfg plugins t pre.st.current pre.evs a)
+  | .error f => .error (f.prepend (beforeRun cfg pre.evs))
+  | .ok a => .ok (afterRun cfg plugins t pre.st.current (beforeRun cfg pre.evs) a)
 
 /-- `UtestShell::runOneTest`: hasFailed_ = false; result.countRun(); SetJmp(helperDoRunOneTest…) -/
-def runOneTest (cfg : Cfg) (plugins : List Plugin) (t : Test) (st : TSt) : Except Fault JmpOut :=
+def runOneTest (cfg : Cfg) (plugins : List Plugin) (t : Test) (st : TSt) : Except Stop JmpOut :=
   setJmp { st with hasFailed := false, res := st.res.countRun } (runOneTestInCurrentProcess cfg plugins t)
 
 /-! ## TestRegistry::runAllTests -/
@@ -465,23 +537,34 @@ deriving Repr, DecidableEq, Inhabited
 /-- does the shell run its test (`willRun`)? an ignored one only with `-ri` -/
 def willRun (cfg : Cfg) (t : Test) : Bool := !t.ignored || cfg.runIgnored
 
+/-- `verbose_ > level_quiet` -/
+def Cfg.anyVerbose (cfg : Cfg) : Bool := cfg.verbose || cfg.veryVerbose
+
 /-- `TestOutput::printCurrentTestStarted` -/
 def testStartedToks (cfg : Cfg) (t : Test) : List Ev :=
-  if cfg.verbose then [.tok (formattedName cfg t)] else []
+  if cfg.anyVerbose then [.tok (formattedName cfg t)] else []
 
-/-- `TestOutput::printCurrentTestEnded` (time pinned to 0) -/
-def testEndedToks (cfg : Cfg) (ind : String) (dots : Nat) : List Ev :=
-  if cfg.verbose then [.tok " - ", .tok "0", .tok " ms\n"]
+/-- `TestOutput::printCurrentTestEnded`; `time` = getCurrentTestTotalExecutionTime() -/
+def testEndedToks (cfg : Cfg) (ind : String) (dots : Nat) (time : Nat) : List Ev :=
+  if cfg.anyVerbose then [.tok " - ", .tok (toString time), .tok " ms\n"]
   else if (dots + 1) % 50 = 0 then [.tok ind, .tok "\n"] else [.tok ind]
 
-def dotsAfter (cfg : Cfg) (dots : Nat) : Nat := if cfg.verbose then dots else dots + 1
+def dotsAfter (cfg : Cfg) (dots : Nat) : Nat := if cfg.anyVerbose then dots else dots + 1
+
+/-- the `i`-th reading of the clock seam (environment input) -/
+def readClock (cfg : Cfg) (i : Nat) : Nat := cfg.clock.getD i 0
+
+/-- `(size_t) now - then`: unsigned 64-bit subtraction -/
+def elapsed (now before : Nat) : Nat := (now % 18446744073709551616 + 18446744073709551616 - before % 18446744073709551616) % 18446744073709551616
 
 /-- state of the loop over the registry -/
 structure LSt where
-  res     : Result
-  depth   : Int
-  current : Option String
-  out     : OutSt
+  res        : Result
+  depth      : Int
+  current    : Option String
+  out        : OutSt
+  tick       : Nat                 -- clock readings consumed so far
+  groupStart : Bool                -- the loop variable of the same name
 deriving Repr, DecidableEq, Inhabited
 
 structure LAcc where
@@ -489,45 +572,74 @@ structure LAcc where
   evs : List Ev
 deriving Repr, DecidableEq, Inhabited
 
-/-- `test->runOneTest(plugin, result)` for a shell that runs (`UtestShell::runOneTest`) or an
-    ignored one (`result.countIgnored()`), then `currentTestEnded` -/
-def runSelected (cfg : Cfg) (plugins : List Plugin) (t : Test) (s : LSt) : Except Fault LAcc :=
+/-- `currentTestStarted` (print, then read the clock), `test->runOneTest(plugin, result)` for a shell
+    that runs (`UtestShell::runOneTest`) or an ignored one (`result.countIgnored()`), then
+    `currentTestEnded` (read the clock, then print) -/
+def runSelected (cfg : Cfg) (plugins : List Plugin) (t : Test) (s : LSt) : Except Stop LAcc :=
   if willRun cfg t then
     match runOneTest cfg plugins t ⟨s.res, false, s.depth, s.current⟩ with
-    | .error f => .error f
+    | .error f => .error (f.prepend (testStartedToks cfg t ++ [.clock (readClock cfg s.tick)]))
     | .ok j =>
       match j.esc with
-      | some _ => .error .rethrown
+      | some _ => .error (.fault .uncaught)
       | none =>
-        .ok ⟨⟨j.st.res, j.st.depth, j.st.current, ⟨dotsAfter cfg s.out.dotCount, "."⟩⟩,
-             testStartedToks cfg t ++ j.evs ++ [.ended j.st.depth j.st.current j.st.hasFailed]
-               ++ testEndedToks cfg "." s.out.dotCount⟩
+        .ok ⟨⟨j.st.res, j.st.depth, j.st.current, ⟨dotsAfter cfg s.out.dotCount, "."⟩, s.tick + 2, s.groupStart⟩,
+             testStartedToks cfg t ++ [.clock (readClock cfg s.tick)] ++ j.evs ++
+               [.clock (readClock cfg (s.tick + 1)), .ended j.st.depth j.st.current j.st.hasFailed]
+               ++ testEndedToks cfg "." s.out.dotCount (elapsed (readClock cfg (s.tick + 1)) (readClock cfg s.tick))⟩
   else
-    .ok ⟨⟨s.res.countIgnored, s.depth, s.current, ⟨dotsAfter cfg s.out.dotCount, "!"⟩⟩,
-         testStartedToks cfg t ++ [.ended s.depth s.current false] ++ testEndedToks cfg "!" s.out.dotCount⟩
+    .ok ⟨⟨s.res.countIgnored, s.depth, s.current, ⟨dotsAfter cfg s.out.dotCount, "!"⟩, s.tick + 2, s.groupStart⟩,
+         testStartedToks cfg t ++ [.clock (readClock cfg s.tick), .clock (readClock cfg (s.tick + 1)),
+           .ended s.depth s.current false]
+           ++ testEndedToks cfg "!" s.out.dotCount (elapsed (readClock cfg (s.tick + 1)) (readClock cfg s.tick))⟩
 
-/-- one iteration of the loop in `TestRegistry::runAllTests` (group start/end print nothing on
-    the console) -/
-def runEntry (cfg : Cfg) (plugins : List Plugin) (t : Test) (s : LSt) : Except Fault LAcc :=
+/-- `if (groupStart) { result.currentGroupStarted(test); groupStart = false; }` (reads the clock,
+    prints nothing on the console) -/
+def groupStarted (cfg : Cfg) (s : LSt) : LAcc :=
+  if s.groupStart then ⟨{ s with tick := s.tick + 1, groupStart := false }, [.clock (readClock cfg s.tick)]⟩
+  else ⟨s, []⟩
+
+/-- `if (endOfGroup(test)) { groupStart = true; result.currentGroupEnded(test); }` -/
+def groupEnded (cfg : Cfg) (last : Bool) (s : LSt) : LAcc :=
+  if last then ⟨{ s with tick := s.tick + 1, groupStart := true }, [.clock (readClock cfg s.tick)]⟩
+  else ⟨s, []⟩
+
+/-- `TestRegistry::endOfGroup`: no next test, or the next one has another group -/
+def endOfGroup (t : Test) : List Test → Bool
+  | [] => true
+  | n :: _ => t.group != n.group
+
+/-- the middle of one iteration: countTest, then the test if the filters select it -/
+def runFiltered (cfg : Cfg) (plugins : List Plugin) (t : Test) (s : LSt) : Except Stop LAcc :=
   if shouldRun cfg t then runSelected cfg plugins t { s with res := s.res.countTest }
   else .ok ⟨{ s with res := s.res.countTest.countFilteredOut }, []⟩
 
-def runTests (cfg : Cfg) (plugins : List Plugin) : List Test → LSt → Except Fault LAcc
+/-- one iteration of the loop in `TestRegistry::runAllTests`; `last` = endOfGroup(test) -/
+def runEntry (cfg : Cfg) (plugins : List Plugin) (t : Test) (last : Bool) (s : LSt) : Except Stop LAcc :=
+  match runFiltered cfg plugins t (groupStarted cfg s).st with
+  | .error f => .error (f.prepend (groupStarted cfg s).evs)
+  | .ok a => .ok ⟨(groupEnded cfg last a.st).st, (groupStarted cfg s).evs ++ a.evs ++ (groupEnded cfg last a.st).evs⟩
+
+def runTests (cfg : Cfg) (plugins : List Plugin) : List Test → LSt → Except Stop LAcc
   | [], s => .ok ⟨s, []⟩
   | t :: rest, s =>
-    match runEntry cfg plugins t s with
+    match runEntry cfg plugins t (endOfGroup t rest) s with
     | .error f => .error f
     | .ok a =>
       match runTests cfg plugins rest a.st with
-      | .error f => .error f
+      | .error f => .error (f.prepend a.evs)
       | .ok b => .ok ⟨b.st, a.evs ++ b.evs⟩
 
-/-- `TestRegistry::runAllTests(result)`: testsStarted; the loop; testsEnded (prints the summary and
-    resets dotCount_) -/
-def registryRunAll (cfg : Cfg) (plugins : List Plugin) (tests : List Test) (s : LSt) : Except Fault LAcc :=
-  match runTests cfg plugins tests s with
-  | .error f => .error f
-  | .ok a => .ok ⟨{ a.st with out := { a.st.out with dotCount := 0 } }, a.evs ++ [.summary a.st.res]⟩
+/-- `TestRegistry::runAllTests(result)`: testsStarted (reads the clock); the loop; testsEnded (reads
+    the clock, prints the summary with the elapsed time and resets dotCount_) -/
+def registryRunAll (cfg : Cfg) (plugins : List Plugin) (tests : List Test) (s : LSt) : Except Stop LAcc :=
+  match runTests cfg plugins tests { s with tick := s.tick + 1, groupStart := true } with
+  | .error f => .error (f.prepend [.clock (readClock cfg s.tick)])
+  | .ok a =>
+    .ok ⟨{ a.st with out := { a.st.out with dotCount := 0 }, tick := a.st.tick + 1 },
+         .clock (readClock cfg s.tick) :: a.evs ++
+           [.clock (readClock cfg a.st.tick),
+            .summary a.st.res (elapsed (readClock cfg a.st.tick) (readClock cfg s.tick))]⟩
 
 /-! ## CommandLineTestRunner::runAllTests -/
 
@@ -540,6 +652,7 @@ structure RSt where
   depth   : Int
   current : Option String
   out     : OutSt
+  tick    : Nat
   failedTestCount      : Nat
   failedExecutionCount : Nat
 deriving Repr, DecidableEq, Inhabited
@@ -552,25 +665,25 @@ deriving Repr, DecidableEq, Inhabited
 
 /-- body of `while (loopCount++ < repeatCount)` -/
 def repetition (cfg : Cfg) (plugins : List Plugin) (tests : List Test) (number total : Nat) (s : RSt) :
-    Except Fault RAcc :=
-  match registryRunAll cfg plugins tests ⟨{}, s.depth, s.current, s.out⟩ with
-  | .error f => .error f
+    Except Stop RAcc :=
+  match registryRunAll cfg plugins tests ⟨{}, s.depth, s.current, s.out, s.tick, true⟩ with
+  | .error f => .error (f.prepend (testRunToks number total))
   | .ok a =>
-    .ok ⟨⟨a.st.depth, a.st.current, a.st.out,
+    .ok ⟨⟨a.st.depth, a.st.current, a.st.out, a.st.tick,
           s.failedTestCount + a.st.res.failureCount,
           if a.st.res.isFailure then s.failedExecutionCount + 1 else s.failedExecutionCount⟩,
          testRunToks number total ++ a.evs, [a.st.res]⟩
 
 /-- the loop, `k` repetitions left, the next one is number `number` -/
 def repeatLoop (cfg : Cfg) (plugins : List Plugin) (tests : List Test) (total : Nat) :
-    Nat → Nat → RSt → Except Fault RAcc
+    Nat → Nat → RSt → Except Stop RAcc
   | 0, _, s => .ok ⟨s, [], []⟩
   | k + 1, number, s =>
     match repetition cfg plugins tests number total s with
     | .error f => .error f
     | .ok a =>
       match repeatLoop cfg plugins tests total k (number + 1) a.st with
-      | .error f => .error f
+      | .error f => .error (f.prepend a.evs)
       | .ok b => .ok ⟨b.st, a.evs ++ b.evs, a.reps ++ b.reps⟩
 
 /-- `return (int)(failedTestCount != 0 ? failedTestCount : failedExecutionCount)` (regenerated) -/
@@ -588,8 +701,8 @@ deriving Repr, DecidableEq, Inhabited
 /-- `CommandLineTestRunner::runAllTests` for a parsed command line with repeat count `repeatCount`,
     started with `jmp_buf_index = d` -/
 def runAllTests (cfg : Cfg) (plugins : List Plugin) (tests : List Test) (repeatCount : Nat) (d : Int) :
-    Except Fault RunOut :=
-  match repeatLoop cfg plugins tests repeatCount repeatCount 1 ⟨d, none, {}, 0, 0⟩ with
+    Except Stop RunOut :=
+  match repeatLoop cfg plugins tests repeatCount repeatCount 1 ⟨d, none, {}, 0, 0, 0⟩ with
   | .error f => .error f
   | .ok a => .ok ⟨a.evs ++ [.ret (runnerReturn a.st)], a.reps, runnerReturn a.st, a.st.depth, a.st.current⟩
 
